@@ -499,7 +499,10 @@ fn gen(rng: &mut Rng, _i: u64) -> String {
 			let mut text = String::new();
 			// half of the cases in the canonical spelling (the one theorem 2 speaks about), half with random spacing and case
 			if rng.chance(1, 2) { text = show_canon(&items); } else { show(&items, &mut text, rng); }
-			let image_base: u64 = if pe64 { 0x1_4000_0000 } else { 0x40_0000 };
+			// seed C11-15: one image in six ends exactly at the top of its address space (base + SizeOfImage = 2^32 / 2^64):
+			// every pointer of the layout is still a valid VA, an end address computed with wrapping arithmetic is 0
+			let top = rng.chance(1, 6);
+			let image_base: u64 = if top { if pe64 { 0xFFFF_FFFF_FFFF_0000 } else { 0xFFFF_0000 } } else if pe64 { 0x1_4000_0000 } else { 0x40_0000 };
 			let lay_off = 0x40 + rng.below(0x20) as usize;   // offset of the layout inside the section
 			let sec_va = 0x1000u32; let sec_prd = if file { 0x400u32 } else { 0x1000 };
 			let mut syn = Synth { buf: vec![], owned: vec![], saves: vec![sec_va + lay_off as u32], va_bytes: if pe64 { 8 } else { 4 }, base_rva: sec_va + lay_off as u32, image_base, constrained: vec![], ambiguous: false };
@@ -513,6 +516,7 @@ fn gen(rng: &mut Rng, _i: u64) -> String {
 			let mut spec = ImgSpec { pe64, e_lfanew: 0x80, soh: 0x200, soi: 0x1000 + sec_size as u32 + 0x1000, image_base: hdr_base, nrva: 16, dirs: vec![(0, 0); 16], opt_size: 0, nsec_field: 1,
 				secs: vec![Sec { name: *b".text\0\0\0", va: sec_va, vs: sec_size as u32, prd: sec_prd, srd: sec_size as u32, chars: 0x6000_0020 }], checksum: 0, magic: if pe64 { 0x20b } else { 0x10b } };
 			spec.opt_size = spec.std_opt_size();
+			if top && spec.soi <= 0x10000 { spec.soi = 0x10000; }
 			let len = sec_prd as usize + sec_size;
 			let mut poke = syn.buf.clone();
 			let mut expect = if syn.ambiguous { "any" } else { "match" };
